@@ -189,8 +189,33 @@ func c09PolicyOK(covert string) bool {
 	return !blocked.Contains(ip)
 }
 
+// checkAnnOrder: the detector applies announcements in the order they are published. An Update
+// (activation, long lifetime) published before the New of the same registration is overwritten by
+// that New: the update is lost. In a serial execution a registration is announced before a
+// connection handler can see and activate it.
+func (w *c09World) checkAnnOrder(when string) bool {
+	w.mu.Lock()
+	anns := append([]c09Ann(nil), w.anns...)
+	w.mu.Unlock()
+	seenNew := map[string]bool{}
+	for _, a := range anns {
+		switch a.kind {
+		case "new":
+			seenNew[a.key] = true
+		case "update":
+			if !seenNew[a.key] {
+				return !w.r.Fail("C09/update-lost/published-before-new", "%s: the activation (Update) of registration %s was published by task %s before the registration was announced as New; the detector applies New last and forgets the activation", when, a.key, a.task)
+			}
+		}
+	}
+	return true
+}
+
 // checkVisible: every registration a connection handler could see is one whose own admission completed.
 func (w *c09World) checkVisible(when string) bool {
+	if !w.checkAnnOrder(when) {
+		return false
+	}
 	rd := w.rm.registeredDecoys
 	var phs []string
 	for ph := range rd.decoys {
@@ -880,6 +905,9 @@ func c09Reload(r *sim.Run, s *hook.Sched) {
 	case sim.AllExited:
 	default:
 		r.Fail("C09/not-finished", "tasks did not finish (%v): %v", st, s.LiveNames())
+		return
+	}
+	if !w.checkAnnOrder("end") {
 		return
 	}
 	if got, _ := w.rm.ParseOrResolveBlocklisted("203.0.113.7:443"); got != "" && kind != 2 {
